@@ -94,7 +94,9 @@ func c10Check(r *vkit.Run, in c10Input, replay []int) {
 	start := (c09Base + 2) * sec
 	end, step := start, int64(0)
 	if in.Range {
-		end, step = start+2*sec, sec
+		// the grid starts with the first record, so that samples keep arriving at later steps
+		start = c09Base * sec
+		end, step = start+3*sec, sec
 	}
 	times := gridTimes(start, end, step)
 	exp, _, _, _ := expectGrid(expr, data, times, refmodel.Convention{})
